@@ -2,6 +2,8 @@ package main
 
 import (
 	"fmt"
+	"sync/atomic"
+	"time"
 	"io"
 	"os"
 	"path/filepath"
@@ -41,6 +43,8 @@ type crashRec struct {
 	events  int
 	max     int
 	pending []string // trace lines produced inside hooks, emitted by the main goroutine
+	parkRot chan struct{} // mix c02: the post-rotation flush waits here until released
+	rotParked int32
 }
 
 var curCrash *crashRec
@@ -150,6 +154,13 @@ func (cs *crashRec) take(label string, mutate func(dir string)) {
 
 func crashHook(point string, args ...interface{}) {
 	seqHook(point, args...)
+	if cs := curCrash; cs != nil && cs.parkRot != nil && point == "data.flush.enter" && args[1].(int) >= 0 && curGID() != mainGID {
+		atomic.AddInt32(&cs.rotParked, 1)
+		select {
+		case <-cs.parkRot:
+		case <-time.After(5 * time.Second):
+		}
+	}
 	if !strings.HasPrefix(point, "fs.") {
 		return
 	}
@@ -330,7 +341,33 @@ func crashCase(c *Ctx, r *RNG, id, base, mix string) {
 		return ok
 	}
 	failed := false
-	if mix == "c07" {
+	closed := false
+	if mix == "c02" {
+		// a clean shutdown right after a rotation: the goroutine that flushes the previous file has not run yet
+		cs.parkRot = make(chan struct{})
+		atomic.StoreInt64(&s.noQuiesce, 1)
+		head0 := s.hs.VerifHead(0)
+		for i := 0; i < 60 && s.hs.VerifHead(0) == head0; i++ {
+			write()
+		}
+		for i := 0; i < r.Intn(4); i++ {
+			write()
+		}
+		c.count("c02.rotated")
+		if p := guard(func() { s.hs.Close() }); p != "" {
+			c.line("fatal => during close: %s", strings.ReplaceAll(p, "\n", " "))
+		}
+		// the process exits here: what is on disk now is what the next start finds
+		cs.mu.Lock()
+		cs.take("ev=closed parked="+strconv.Itoa(int(atomic.LoadInt32(&cs.rotParked))), nil)
+		cs.mu.Unlock()
+		close(cs.parkRot)
+		atomic.StoreInt64(&s.noQuiesce, 0)
+		s.quiesce()
+		cs.flushLines(c)
+		c.line("close")
+		closed = true // Close() has been called already
+	} else if mix == "c07" {
 		// phased layout (see engine seq), everything flushed, then one GC pass with crash points inside it
 		nph := 2 + r.Intn(4)
 		for ph := 0; ph < nph && !failed; ph++ {
@@ -396,7 +433,9 @@ func crashCase(c *Ctx, r *RNG, id, base, mix string) {
 			cs.flushLines(c)
 		}
 	}
-	if !failed {
+	if closed {
+		// nothing left to do
+	} else if !failed {
 		// orderly shutdown: its file-system steps are crash points too
 		if p := guard(func() { s.hs.Close() }); p != "" {
 			c.line("fatal => during close: %s", strings.ReplaceAll(p, "\n", " "))
